@@ -258,6 +258,30 @@ def acyclic_grids(rng, tier, n=60):
     return out
 
 
+def funnel_grids(rng, tier, n=12):
+    """acyclic grids in which every cell drains, through neighbours that are closer (Chebyshev distance), to one chosen cell: large
+    catchments with wide search frontiers.  Returns (nrows, ncols, flowdir, outlet)"""
+    fdc = flowdircode(); out = []
+    dims = [(3, 3), (4, 4), (3, 5), (5, 5), (6, 6), (2, 7)]
+    for _ in range(n if tier == 'quick' else n * 6):
+        nr, nc = rng.choice(dims)
+        o = rng.randrange(nr * nc); ro, co = divmod(o, nc)
+        fd = []
+        for c in range(nr * nc):
+            r0, c0 = divmod(c, nc)
+            if c == o:
+                fd.append(0); continue
+            d0 = max(abs(r0 - ro), abs(c0 - co)); opts = []
+            for k in range(9):
+                if k == 4: continue
+                r1, c1 = r0 + k // 3 - 1, c0 + k % 3 - 1
+                if 0 <= r1 < nr and 0 <= c1 < nc and max(abs(r1 - ro), abs(c1 - co)) < d0:
+                    opts.append(fdc[k])
+            fd.append(rng.choice(opts))
+        out.append((nr, nc, fd, o))
+    return out
+
+
 def lattice(rng):
     return rng.choice([0.0, 1.0, 2.0, 10.0, 100.0, -3.0, 0.5, 0.25])
 
@@ -355,6 +379,26 @@ def gen_area_reach(rng, tier):
         inl = [rng.randrange(n) for _ in range(rng.choice([0, 0, 1, 2]))]
         for nval in (n + 2, n + 1, rng.randint(1, n + 1)):
             out.append([nr, nc, fdc, fd, outlet, len(inl), inl, nval, [-1] * nval, [7] * nval, [7] * nval])
+    for (nr, nc, fd, o) in funnel_grids(rng, tier):
+        n = nr * nc
+        for outlet, inl in ((o, []), (o, [rng.randrange(n)]), (rng.randrange(n), [rng.randrange(n), rng.randrange(n)])):
+            out.append([nr, nc, fdc, fd, outlet, len(inl), inl, n + 2, [-1] * (n + 2), [7] * (n + 2), [7] * (n + 2)])
+    return out
+
+
+def gen_area_once(rng, tier):
+    """acyclic grids only (the contract assumes a height function), vector pre-filled with -1"""
+    fdc = flowdircode(); out = []
+    for (nr, nc, fd) in acyclic_grids(rng, tier, n=60):
+        n = nr * nc
+        outlet = rng.randrange(n)
+        inl = [rng.randrange(n) for _ in range(rng.choice([0, 0, 1, 2]))]
+        for nval in (n + 2, rng.randint(1, n + 1)):
+            out.append([nr, nc, fdc, fd, outlet, len(inl), inl, nval, [-1] * nval, [7] * nval, [7] * nval])
+    for (nr, nc, fd, o) in funnel_grids(rng, tier):
+        n = nr * nc
+        for outlet, inl in ((o, []), (o, [rng.randrange(n)]), (rng.randrange(n), [rng.randrange(n), rng.randrange(n)])):
+            out.append([nr, nc, fdc, fd, outlet, len(inl), inl, 2 * n + 2, [-1] * (2 * n + 2), [7] * (2 * n + 2), [7] * (2 * n + 2)])
     return out
 
 
@@ -633,6 +677,7 @@ def kernels(*names):
     tab['c_crps#decomp'] = (CRPS, 'c_crps#decomp', gen_crps_decomp)
     tab['c_voronoi#nearest'] = (GRID, 'c_voronoi#nearest', gen_voronoi_nearest)
     tab['c_delineate_area#reach'] = (CATCH, 'c_delineate_area#reach', gen_area_reach)
+    tab['c_delineate_area#once'] = (CATCH, 'c_delineate_area#once', gen_area_once)
     tab['c_var2h#average'] = (VAR2H, 'c_var2h#average', [g for r_, f_, g in ALL_KERNELS if f_ == 'c_var2h'][0])
     return [tab[n] for n in names]
 
